@@ -16,6 +16,9 @@ import (
 
 // SendBundle transmits an outbounding bundle.
 func (c *Core) SendBundle(bndl *bpv7.Bundle) {
+	// Assign the sequence number first; the BundleDescriptor's ID and the Store's key are derived from it.
+	c.idKeeper.update(bndl)
+
 	if c.signPriv != nil && bndl.IsAdministrativeRecord() {
 		c.sendBundleAttachSignature(bndl)
 	}
@@ -51,8 +54,6 @@ func (c *Core) transmit(bp BundleDescriptor) {
 	log.WithFields(log.Fields{
 		"bundle": bp.ID(),
 	}).Info("Transmission of bundle requested")
-
-	c.idKeeper.update(bp.MustBundle())
 
 	bp.AddConstraint(DispatchPending)
 	_ = bp.Sync()
